@@ -591,10 +591,13 @@ func seriesList(r *mon.Run, engine string) [][]Gen {
 func Run(r *mon.Run) {
 	r.Rule = "one broker per series; a series is a sequence of shell generations with fresh IDs; each generation is a point of the cross product {uni,bidir} x {full,in-only,out-only} x {idle,input burst,output flood,output flood with the operator's terminal stalled,the same with the stream ending by itself behind a queue that is exactly full} x {which direction ends first} x {ctx cancel, writer error, flush error, reader EOF, reader error, data+error} x {alone, both ending together with either release order}; the gate scheduler drives each release section, a marker line through the operator channel closes each generation's window, then notices/events/log records are counted, the next shell must attach and pass an I/O probe, and (in serial child processes) a goroutine dump is scanned for anything still inside internal/iobroker. every second series has a third event listener with room for 1-3 events that looks at them only every 1-3 ms and must receive the same events in the same order. " +
 		"http / httpserial engines: hsrv in-process on real TLS with fake shells over raw connections; per generation {/i+/o, /io} x {full, in-only, out-only} x {idle, output flood, input burst} x {client closes / resets input or output, output ends by itself (last chunk, or the last of the declared bytes), both closed} x output transport class {chunked upload, upload with a declared Content-Length of which 1 B..256 KiB is still outstanding when the shell ends, the same with more than 256 KiB (up to 1 TiB) outstanding}; after the gone notice, the re-printed help and the Disconnected records, every request the client has not dropped itself is watched FROM THE CLIENT SIDE: without the client sending another byte the server must answer it completely or let go of its connection within the progress bound (20 s); httpserial runs the same series one at a time in child processes and, after the client has closed its connections, requires that no net/http per-connection goroutine, shell handler or broker goroutine is left. " +
-		"backlog engine: on one broker with two prompt event listeners and a third one that stops reading its channel (capacity EVChanLen, or 1/8/128) from the start or after 1-150 shells, more minimal shells (full /i+/o with either attach order, bidirectional, half attached; ended by output EOF, output error, cancellation of either side) come and go in series than undelivered events fit anywhere (listener channel + broker queue + 1: > 1100 shells for an EVChanLen channel); the shells are driven from their own goroutine; when the driver stops making progress (the broker may wait for the listener) or is through, the listener reads again; then the series must get through, and every listener must have received exactly the events the shells' history dictates (connected iff fully attached, one disconnected per shell), in order, and the operator one ready / one gone notice per shell. distinct = distinct generation parameter tuples executed"
+		"backlog engine: on one broker with two prompt event listeners and a third one that stops reading its channel (capacity EVChanLen, or 1/8/128) from the start or after 1-150 shells, more minimal shells (full /i+/o with either attach order, bidirectional, half attached; ended by output EOF, output error, cancellation of either side) come and go in series than undelivered events fit anywhere (listener channel + broker queue + 1: > 1100 shells for an EVChanLen channel); the shells are driven from their own goroutine; when the driver stops making progress (the broker may wait for the listener) or is through, the listener reads again; then the series must get through, and every listener must have received exactly the events the shells' history dictates (connected iff fully attached, one disconnected per shell), in order, and the operator one ready / one gone notice per shell. " +
+		"lockwait engine (shutdown with the broker busy and streams arriving meanwhile): the operator's terminal stalls behind an operator channel (capacity 0/1/2/5) that is exactly full, so that one stream stays inside the broker on the notice it sends in the middle of its admission, refusal or tear-down {refusal for want of an ID, refusal because of what is attached (wrong ID, direction taken, no ID), 'connected' notice of a first or second direction, 'ready' notice of a unidirectional or bidirectional shell, 'gone' notice of the last direction of a fully or half attached dying shell}; while it is in there Do's context is cancelled, and after that 1-3 new streams {in, out, bidirectional} x {the shell's ID, a fresh ID, none} call Connect (their admit points are awaited; a few arrive before the shutdown instead); then the terminal reads again and everything runs off in the order the broker chooses; attached streams are kept open for a while, then everything is ended. Judged on the order of the event log only: Do's return comes after the tear-down point of every stream that got attached, nothing is attached and no I/O happens after it, every attached stream reaches its tear-down once and logs one Disconnected record, at least one and at most one-per-stream gone notices. That holder, shutdown and newcomers really overlapped is read off the log (the holder's notice is displayed as line capacity+2 or later after the stall began and after the resume note, so it had not been handed over when the terminal resumed). " +
+		"distinct = distinct generation parameter tuples executed"
 	r.Assumptions = []string{"goroutine-leak scans run in child processes that execute one series at a time", "listener events are awaited (bounded) before shutdown; nothing is asserted about events around shutdown",
 		"http engines: a request counts as ended when its response has arrived completely or the connection has been closed/reset by the server; a keep-alive connection left idle after a complete response is not held against the server; the 20 s bound on that is a progress bound of the property itself ('without needing further traffic')",
-		"backlog engine: a broker that makes a shell wait while a listener does not read is not held against it; the no-progress detector (750 ms) only decides when the paused listener resumes, the verdict is on the complete event sequences afterwards and on the series getting through once every listener reads (no progress for 20 s = violation)"}
+		"backlog engine: a broker that makes a shell wait while a listener does not read is not held against it; the no-progress detector (750 ms) only decides when the paused listener resumes, the verdict is on the complete event sequences afterwards and on the series getting through once every listener reads (no progress for 20 s = violation)",
+		"lockwait engine: which of the waiting parties the broker serves first once the terminal reads again is the broker's choice and is not asserted (a newcomer may be refused or attached); the pauses after the shutdown and after the newcomers' admit points (2-32 ms each) and the time attached streams are kept open (40-160 ms) only make the overlap likely and give a premature return of Do time to show, the verdict never depends on them; a Connect call that neither attaches nor returns within 10 s after the terminal resumed is inconclusive, Do not returning within 10 s after every stream has ended is a violation (progress clause of the shutdown sentence)"}
 	cp := crossProduct()
 	r.Count("cross_product_points", int64(len(cp)))
 	parts := runtime.NumCPU()
@@ -612,6 +615,9 @@ func Run(r *mon.Run) {
 	r.Logf("serial children done")
 	if r.WantEngine("window") {
 		windowCases(r)
+	}
+	if r.WantEngine("lockwait") {
+		lockwaitCases(r)
 	}
 	if r.WantEngine("shutdown") {
 		shutdownCases(r)
